@@ -299,6 +299,33 @@ func ruleHolder(c *Ctx, rule string, fns []*ssa.Function, only map[string]bool) 
 				alias[call] = call.Call.Value
 			}
 		}
+		// a join of nil and one holder (the result variable of an expanded lookup helper: nil where the lookup
+		// found nothing, the derived bucket otherwise) is that holder
+		for _, b := range fn.Blocks {
+			for _, in := range b.Instrs {
+				phi, ok := in.(*ssa.Phi)
+				if !ok || !h.isHolderType(phi.Type()) {
+					continue
+				}
+				var rep ssa.Value
+				same := true
+				for _, e := range phi.Edges {
+					if isNilConst(e) || e == ssa.Value(phi) {
+						continue
+					}
+					if rep == nil {
+						rep = e
+					} else if find(e) != find(rep) {
+						same = false
+					}
+				}
+				if rep != nil && same {
+					if _, already := alias[phi]; !already && find(rep) != ssa.Value(phi) {
+						alias[phi] = rep
+					}
+				}
+			}
+		}
 		// field cells: a holder stored into x.f is the same holder when loaded back from x.f
 		type cell struct {
 			base ssa.Value
